@@ -29,6 +29,22 @@ claim("C04", "Exhaustive static decision table of the header validator: for all 
       "Not decided: that earlier messages were delivered intact (value property).",
       NOTE, "path enumeration + finite-domain guard-table extraction on go/ssa; error-stickiness dataflow", "DESIGN.md §4 C04")
 
+claim("C03", "Static rules over every accepted path of the frame parser and the message reader: conformant headers are never refused (exhaustive header x state table), extended lengths use the right width/decoder, "
+      "mask key copy + position reset per masked frame, Read unmasks exactly the n bytes read at the carried position iff server, readFinal/readDecompress equal the FIN/RSV1 bit (evaluated over all 256 byte-0 values), "
+      "reads bounded by and subtracted from the remaining count, EOF only at true end, NextReader returns readers only for data frames, pooled inflaters are forgotten when returned. "
+      "Decoded-payload equality and flate behaviour are NOT decided.",
+      NOTE, "path enumeration + finite-domain evaluation of stored flag terms; typestate for pooled inflaters", "DESIGN.md §4 C03")
+claim("C05", "Provenance analysis of every error messageReader.Read, (*Conn).read, ReadJSON and the inflate wrapper can return: a value that may be io.EOF leaves the message reader only on paths carrying "
+      "(remaining <= 0 and FIN) or (stale reader); header EOF is converted; errors are sticky on every path; bytes returned with an error are unmasked. Found and fixed defect F1. "
+      "Not decided: that every fully arrived message is reported (liveness/value).",
+      NOTE, "path-sensitive value-provenance (taint) analysis of error results on go/ssa", "DESIGN.md §4 C05")
+claim("C06", "Placement/strictness/overflow rules of the limit check on every data-frame path of advanceFrame (sum += len; sum<0 refused; limit>0 && sum>limit refused with 1009), opcode evaluation showing only data frames are counted, "
+      "abstract-state rule that the running sum is zero whenever a new message can start (found and fixed defect F2), sign of stored lengths, and a def-use rule that no allocation/peek size derives from a claimed length. Exact byte counts delivered are not decided.",
+      NOTE, "path enumeration with interval facts; abstract memory state at call sites; SSA def-use for allocation sizes", "DESIGN.md §4 C06")
+claim("C08", "Exactly-one-dispatch rule on every accepted control-frame path (opcode decided by evaluating the path's byte-0 literals), payload provenance and unmasking (key position 0, iff server), close code/reason decoding and CloseError contents, "
+      "handler errors returned, default handlers' WriteControl arguments, accepted close-code table over all 16-bit codes. Wire-order beyond sequential parsing is not decided.",
+      NOTE, "path enumeration + value provenance on go/ssa; finite-domain table for close codes", "DESIGN.md §4 C08")
+
 REASON_NOT_BUILT = "rules for this property are not built yet in this revision (see DESIGN.md §4 for the planned static rules); nothing is claimed"
 
 def main():
